@@ -5,6 +5,7 @@ Protocol/Transport pattern for efficient, non-blocking I/O.
 """
 
 import asyncio
+import codecs
 
 from cryptography import x509
 
@@ -202,6 +203,10 @@ class GeminiClientProtocol(asyncio.Protocol):
                             charset = part.split("=", 1)[1].strip().strip("\"'")
                             break
                 try:
+                    # "punycode" and "idna" are pure-Python transfer syntaxes, not character
+                    # sets; punycode decoding is quadratic and would block the event loop
+                    if codecs.lookup(charset).name in ("punycode", "idna"):
+                        raise LookupError(f"not a character set: {charset}")
                     body = self.buffer.decode(charset)
                 except (ValueError, LookupError) as e:
                     # Undecodable body (UnicodeError is a ValueError), or a charset
@@ -438,6 +443,10 @@ class TitanClientProtocol(asyncio.Protocol):
                             charset = part.split("=", 1)[1].strip().strip("\"'")
                             break
                 try:
+                    # "punycode" and "idna" are pure-Python transfer syntaxes, not character
+                    # sets; punycode decoding is quadratic and would block the event loop
+                    if codecs.lookup(charset).name in ("punycode", "idna"):
+                        raise LookupError(f"not a character set: {charset}")
                     body = self.buffer.decode(charset)
                 except (ValueError, LookupError) as e:
                     # Undecodable body (UnicodeError is a ValueError), or a charset
